@@ -235,6 +235,17 @@ pub fn run_generic(id: &str, tier: Tier) -> i32 {
             run_plans("C15", seed, &[plan3], &mut out.stats, &mut out.violations);
         }
     }
+    if id == "C12" && out.violations.is_empty() {
+        match crate::props::more::c12_recheck() {
+            Ok(n) => {
+                out.extra["process_level_reference_cases_rechecked_at_end"] = json!(n);
+            }
+            Err(f) => {
+                let p = write_replay_value("C12", 0xC12, json!({"kind": "c12-end-of-run", "note": "needs the whole run as history; re-run the check"}), &f);
+                out.violations.push(Violation { replay: p, clause: f.clause, detail: f.detail });
+            }
+        }
+    }
     if id == "C10" && out.violations.is_empty() {
         // "every guarantee above" includes the pairwise intersection step: C16's oracle with the step executed in f32
         use crate::props::segpair::*;
@@ -254,6 +265,32 @@ pub fn run_generic(id: &str, tier: Tier) -> i32 {
             plan("f32-float-segment-pairs", tier.pick(40_000, 2_000_000), || float_strategy(true)),
         ];
         run_plans("C10", seed, &plans, &mut out.stats, &mut out.violations);
+        // ... and the orderings (C15) instantiated at f32, on nearly degenerate pairs with mixed magnitudes
+        let oplan = Plan::<SegPair> {
+            name: "f32-ordering-near-collinear-pairs",
+            cases: tier.pick(80_000, 3_000_000),
+            strategy: Box::new(crate::props::stage::near_collinear_strategy_f32),
+            eval: Box::new(|d: &SegPair, want: bool| {
+                use std::hash::{Hash, Hasher};
+                let mut obs = Obs::default();
+                let r = crate::exec::guarded(u64::MAX, || crate::props::stage::check_segpair_order_f32(d, &mut obs));
+                let result = match r {
+                    Ok(r) => r,
+                    Err(p) => Err(Failure::new("panic", format!("ordering panicked at {}:{}: {}", p.file, p.line, p.message))),
+                };
+                let mut h = std::collections::hash_map::DefaultHasher::new();
+                format!("{:?}", d).hash(&mut h);
+                Eval { obs, result, digest: h.finish(), family: "f32-ordering-near-collinear-pairs", sample: if want { Some(pair_to_json(d)) } else { None }, skip: None }
+            }),
+            replay: Box::new(|d: &SegPair, _f: &Failure| {
+                let mut v = pair_to_json(d);
+                v["kind"] = json!("segment-pair-order");
+                v
+            }),
+        };
+        if out.violations.is_empty() {
+            run_plans("C10", seed, &[oplan], &mut out.stats, &mut out.violations);
+        }
     }
     let fuzz_inconclusive = add_fuzz(id, tier, seed, &mut out);
     write_evidence(id, tier, seed, spec.rule, &spec.assumptions, &out, t0.elapsed().as_secs_f64(), false);
@@ -339,13 +376,14 @@ pub fn replay(path: &str) -> i32 {
                 None => return 2,
             };
             let mut obs = Obs::default();
-            return match crate::props::stage::check_segpair_order(&d, &mut obs) {
+            let checked = if d.f32 { crate::props::stage::check_segpair_order_f32(&d, &mut obs) } else { crate::props::stage::check_segpair_order(&d, &mut obs) };
+            return match checked {
                 Ok(()) => {
                     println!("replay {}: property C15 holds on this segment pair", path);
                     0
                 }
                 Err(f) => {
-                    println!("VIOLATION property=C15 replay={}", path);
+                    println!("VIOLATION property={} replay={}", v.get("property").and_then(|p| p.as_str()).unwrap_or("C15"), path);
                     println!("  clause: {}\n  detail: {}", f.clause, f.detail);
                     1
                 }
@@ -383,7 +421,7 @@ pub fn replay(path: &str) -> i32 {
                     0
                 }
                 Err(f) => {
-                    println!("VIOLATION property=C15 replay={}", path);
+                    println!("VIOLATION property={} replay={}", v.get("property").and_then(|p| p.as_str()).unwrap_or("C15"), path);
                     println!("  clause: {}\n  detail: {}", f.clause, f.detail);
                     1
                 }
@@ -550,8 +588,11 @@ pub fn c18_scenarios(tier: Tier, seed: u64) -> Vec<crate::props::big::Scenario> 
     // about: its size is capped)
     let cap = |action: usize, size: u64| if ACTIONS[action] == "iter-alternating" { size.min(20_000) } else { size };
     for (i, _) in ACTIONS.iter().enumerate() {
-        v.push(Scenario::Splay { order: i % 2, size: cap(i, big), action: i, stack_mib: if i % 3 == 0 { 2 } else { 8 }, salt: seed });
-        v.push(Scenario::Splay { order: (i + 1) % 2, size: cap(i, big), action: i, stack_mib: if i % 3 == 0 { 8 } else { 2 }, salt: seed });
+        v.push(Scenario::Splay { order: i % 2, size: cap(i, big), action: i, stack_mib: if i % 3 == 0 { 2 } else { 8 }, salt: seed, fold: 0 });
+        v.push(Scenario::Splay { order: (i + 1) % 2, size: cap(i, big), action: i, stack_mib: if i % 3 == 0 { 8 } else { 2 }, salt: seed, fold: 0 });
+        // the same teardown / consumption on a chain that a lookup has folded (far end brought to the root)
+        v.push(Scenario::Splay { order: i % 2, size: cap(i, big), action: i, stack_mib: 2, salt: seed, fold: 1 + (i % 2) });
+        v.push(Scenario::Splay { order: (i + 1) % 2, size: cap(i, big), action: i, stack_mib: 2, salt: seed, fold: 1 + (i % 2) });
     }
     // generated scenarios: order x log-uniform size x action x stack from a splitmix stream of the seed
     let mut s = seed ^ 0xC18C_18C1_8C18_C18C;
@@ -570,7 +611,8 @@ pub fn c18_scenarios(tier: Tier, seed: u64) -> Vec<crate::props::big::Scenario> 
         let size = (lo + (hi - lo) * (next() % 10_000) as f64 / 10_000.0).exp() as u64;
         let action = (next() % ACTIONS.len() as u64) as usize;
         let stack_mib = if next() % 2 == 0 { 8 } else { 2 };
-        v.push(Scenario::Splay { order, size: cap(action, size), action, stack_mib, salt: next() });
+        let fold = (next() % FOLDS.len() as u64) as usize;
+        v.push(Scenario::Splay { order, size: cap(action, size), action, stack_mib, salt: next(), fold });
     }
     // Boolean operations with a heavily populated sweep line
     let nb = tier.pick(250_000, 250_000);
@@ -609,6 +651,9 @@ pub fn judge_scenario(sc: &crate::props::big::Scenario, res: &crate::props::big:
                 "clear" => (Some(0), None),
                 "iter-forward" | "iter-backward" | "iter-alternating" => (Some(n), Some(n * (n - 1) / 2)),
                 "iter-partial-drop" => (Some(4.min(n)), if n > 4 { Some(0 + 1 + 2 + n - 1) } else { None }),
+                "iter-untouched-drop" => (Some(n), None),
+                "iter-front-drop" => (Some(1000.min(n)), if n >= 1000 { Some(999 * 1000 / 2) } else { None }),
+                "iter-back-drop" => (Some(1000.min(n)), if n >= 1000 { Some((0..1000).map(|i| n - 1 - i).sum()) } else { None }),
                 "lookups" => (None, Some(n)),
                 _ => (Some(n), Some(0)),
             };
@@ -695,7 +740,7 @@ pub fn run_c18(tier: Tier) -> i32 {
     let t0 = Instant::now();
     let mut stats = Stats::default();
     let mut violations = Vec::new();
-    let rule = "scenarios run in child processes of the harness binary, the work being done in a thread with an explicit 8 MiB or 2 MiB stack: (a) splay scenarios = insertion order (ascending, descending, zig-zag, organ-pipe, random) x size (log-uniform in [1e3, 1e6 quick / 3e6 thorough]) x action (drop, clear, full iteration forward/backward/alternating, partial iteration then drop, 1e4 random get/next/prev, remove all ascending/descending); a fixed backbone runs every action on a monotone chain of maximal size; (b) Boolean operations on combs/grids/nested rings with a clipping box at each corner. Oracle: the child exits 0 and reports the expected length/count/checksum (polygon count for comb intersection/difference). Non-trivial: splay scenario with size >= 1e5 whose measured tree height (iterative probe behind the verif-hooks feature) is >= 1e5; Boolean scenario with >= 1e5 edges and >= 1e4 segments in the sweep line when the sweep stopped early.";
+    let rule = "scenarios run in child processes of the harness binary, the work being done in a thread with an explicit 8 MiB or 2 MiB stack: (a) splay scenarios = insertion order (ascending, descending, zig-zag, organ-pipe, random) x size (log-uniform in [1e3, 1e6 quick / 3e6 thorough]) x fold (none, or one lookup of the maximum / minimum / middle key / successor of the minimum after building, which splays the far end of the chain to the root) x action (drop, clear, full iteration forward/backward/alternating, partial iteration from both ends then drop, iterator dropped untouched / after 1000 elements from the front / from the back, 1e4 random get/next/prev, remove all ascending/descending); a fixed backbone runs every action on a monotone chain of maximal size; (b) Boolean operations on combs/grids/nested rings with a clipping box at each corner. Oracle: the child exits 0 and reports the expected length/count/checksum (polygon count for comb intersection/difference). Non-trivial: splay scenario with size >= 1e5 whose measured tree height (iterative probe behind the verif-hooks feature) is >= 1e5; Boolean scenario with >= 1e5 edges and >= 1e4 segments in the sweep line when the sweep stopped early.";
     let scenarios = c18_scenarios(tier, seed);
     // pinned regression scenarios
     let mut all = Vec::new();
@@ -864,6 +909,17 @@ fn c03_common(tier: Tier, seed: u64, stats: &mut Stats, violations: &mut Vec<Vio
         let check: Box<CheckFn> = Box::new(c03_case);
         run_random("C03", seed, &families, &*check, stats, violations);
     }
+    // (d) adversarial inputs, tolerated-signature mode: K1/K2 in every build, K3/K4 (debug assertions) only where they exist
+    if violations.is_empty() {
+        let plan = Plan::<Adv> {
+            name: "adversarial",
+            cases: tier.pick(if cfg!(debug_assertions) { 100_000 } else { 200_000 }, if cfg!(debug_assertions) { 1_000_000 } else { 4_000_000 }),
+            strategy: Box::new(adv_strategy),
+            eval: Box::new(|d: &Adv, s: bool| eval_adv(d, s)),
+            replay: Box::new(|d: &Adv, _f: &Failure| adv_replay(d)),
+        };
+        run_plans("C03", seed, &[plan], stats, violations);
+    }
 }
 
 pub fn run_c03(tier: Tier, part_out: Option<&str>) -> i32 {
@@ -888,7 +944,7 @@ pub fn run_c03(tier: Tier, part_out: Option<&str>) -> i32 {
         std::fs::write(out, serde_json::to_string(&v).unwrap()).expect("write part");
         return if violations.is_empty() { 0 } else { 1 };
     }
-    let rule = "(a) the robust-domain operand pairs of C01 (all 4 operations, one trait pairing, f64 and, when representable, f32), in a release build and in a build with debug assertions and overflow checks: the call must return and the guarded counter of processed sweep events must stay within B(n) = 4n^2+8n+16 (n = input edges); (b) 13 degenerate-but-valid operands (empty multipolygon, empty exterior, empty hole, ring of one repeated point, single-point ring, repeated consecutive vertices, ...) in all ordered pairs x 4 operations x allowed trait pairings x f64/f32, also judged by the membership oracle; (c) large parametric inputs (combs, grids, nested rings with a clipping box at each corner) in child processes; (d) adversarial inputs (small-lattice simple polygons with arbitrary slopes, x-squashed float stars) where panics with the exact signature of the recorded findings K1/K2 are tolerated and counted. Non-trivial: (a) as C01; (b) sweep path taken; (c) >= 1e5 edges and >= 1e4 segments in the sweep line at the early stop; (d) bounding boxes overlap.";
+    let rule = "(a) the robust-domain operand pairs of C01 (all 4 operations, one trait pairing, f64 and, when representable, f32), in a release build and in a build with debug assertions and overflow checks: the call must return and the guarded counter of processed sweep events must stay within B(n) = 4n^2+8n+16 (n = input edges); (b) 13 degenerate-but-valid operands (empty multipolygon, empty exterior, empty hole, ring of one repeated point, single-point ring, repeated consecutive vertices, ...) in all ordered pairs x 4 operations x allowed trait pairings x f64/f32, also judged by the membership oracle; (c) large parametric inputs (combs, grids, nested rings with a clipping box at each corner) in child processes; (d) adversarial inputs (small-lattice simple polygons with arbitrary slopes, x-squashed float stars in f64 and f32), in both builds, where panics with the exact signature of the recorded findings are tolerated and counted (K1/K2 everywhere, the debug assertions K3/K4 only in the build that has them). Non-trivial: (a) as C01; (b) sweep path taken; (c) >= 1e5 edges and >= 1e4 segments in the sweep line at the early stop; (d) bounding boxes overlap.";
     let mut extra = json!({"builds": [build_name()]});
     // the other build
     let exe = std::env::current_exe().expect("exe");
@@ -949,17 +1005,6 @@ pub fn run_c03(tier: Tier, part_out: Option<&str>) -> i32 {
             }
         }
         extra["large_input_scenarios"] = json!(listing);
-    }
-    // (d) adversarial inputs, tolerated-signature mode (release build)
-    if violations.is_empty() {
-        let plan = Plan::<Adv> {
-            name: "adversarial",
-            cases: tier.pick(200_000, 4_000_000),
-            strategy: Box::new(adv_strategy),
-            eval: Box::new(|d: &Adv, s: bool| eval_adv(d, s)),
-            replay: Box::new(|d: &Adv, _f: &Failure| adv_replay(d)),
-        };
-        run_plans("C03", seed, &[plan], &mut stats, &mut violations);
     }
     let out = Outcome { violations, known_lines, stats, extra };
     write_evidence("C03", tier, seed, rule, &[props::ASSUME_DOMAIN, "the event counter and budget are the feature-guarded hook in subdivide (thread-local); bounded events imply bounded allocation because every processed event creates at most four new events and nothing else allocates in a loop", "a watchdog expiry of a child process is inconclusive (exit 2), never a violation", "adversarial tier: a panic is tolerated only with the exact recorded signature (K1: index usize::MAX at connect_edges.rs; K2: budget exceeded with the last 16 event x-coordinates within 64 ulps)"], &out, t0.elapsed().as_secs_f64(), false);
